@@ -38,6 +38,12 @@ func c05Oracle(c *Ctx, prog *LazyProgram, log *RunLog, assign []KV, devs int, wh
 		viol("escaped-panic", fmt.Sprintf("Check let a panic escape: %v", log.Escaped))
 		return f, false
 	}
+	if v.Class == "flaky" && env.FirstFalsified() != nil {
+		// doCheck reproduced the failure (otherwise it would not have minimized), so a "flaky" report
+		// means that minimization came back with another error than the one it was given
+		viol("minimization-returned-another-failure prog="+prog.Name, "the failure was found and reproduced, yet after minimization Check reports it as flaky: the minimized test case fails differently (or not at all)")
+		return f, false
+	}
 	if v.Class != "failed" && v.Class != "panic" {
 		return f, false
 	}
@@ -97,6 +103,8 @@ func c05Units(tier string, seed int64) []Unit {
 	progs := []func() *LazyProgram{
 		func() *LazyProgram { return progTwoSites() },
 		func() *LazyProgram { return progSameMessage() },
+		func() *LazyProgram { return progNonFatalThenFatal() },
+		func() *LazyProgram { return progCustomMayDrawNothing() },
 		func() *LazyProgram { return progThreshold(100) },
 		func() *LazyProgram { return progNonFatal(5) },
 		func() *LazyProgram { return progMachine() },
